@@ -113,7 +113,9 @@ def mkArray (t : ElemType) (dims : List Nat) (nullMask : List Bool) (hdr : Nat) 
     if nullMask.getD i false then es := es.push none
     else es := es.push (some (← genDatum t hdr big))
   let lbs := dims.map fun d => (lboundClasses d).getD (lbClass % 8) 1
-  return { et := t, dims, lbounds := lbs, elems := es.toList }
+  -- sometimes an all-present bitmap is stored (an array that once had NULLs)
+  let bitmap ← if n > 0 then Gen.prob 1 5 else pure false
+  return { et := t, dims, lbounds := lbs, elems := es.toList, bitmap }
 
 /-- dimension shapes of the deterministic prefix: 0, 1, 2, 3 and 6 dimensions -/
 def prefixDims : List (List Nat) := [[], [3], [2, 3], [2, 1, 3], [1, 2, 1, 2, 1, 2]]
